@@ -29,10 +29,13 @@ fn all_kinds_program() -> Prog {
         // references as assignment targets are references like any other
         bin("=", rf("a"), lit_i(3)),
         bin("+=", rf("zz"), rf("f")),
+        bin("*", rf("priceAa"), bin("<", rf("priceBB"), call("priceAa", vec![call("priceBB", vec![])]))),
     ])
 }
 
-const NAMES: [&str; 9] = ["-", "+", "++", "--", "f", "g", "a", "zz", "never_used"];
+// (`priceAa` / `priceBB` collide under the classic h*31+byte string hash; `*` looks like a wildcard but is
+// the multiplication operator)
+const NAMES: [&str; 12] = ["-", "+", "++", "--", "f", "g", "a", "zz", "never_used", "priceAa", "priceBB", "*"];
 
 /// every single (kind[, name]) registration
 pub fn singles() -> Vec<(DKind, String)> {
@@ -200,6 +203,11 @@ fn seeded_case(r: &mut Prng, big: bool) -> Case {
     let (t1, t2) = if r.chance(1, 2) { (t1, t2) } else { (t2, t1) };
     c.pre.push(Op::Describe { prog: t1 });
     c.pre.push(Op::Describe { prog: t2 });
+    if r.chance(1, 6) {
+        // a flat-looking but 80-operand (left-deep) chain
+        let n = 70 + r.usize(30);
+        c.pre.push(Op::Describe { prog: Prog::Chain((0..=n).map(|i| rf(&format!("item{}", i))).collect(), (0..n).map(|_| "+".to_string()).collect()) });
+    }
     c
 }
 
@@ -219,8 +227,8 @@ impl Prop for C18 {
         PropMeta {
             id: "C18",
             level: "exploration",
-            rule: "exhaustive part: every single (kind[, name]) descriptor registration - 5 named kinds x 9 names (operators/names used by the programs and \
-                   look-alikes under another kind) + 4 unnamed kinds = 49 cases - each against a program containing all nine node kinds, a one-statement \
+            rule: "exhaustive part: every single (kind[, name]) descriptor registration - 5 named kinds x 12 names (operators/names used by the programs and \
+                   look-alikes under another kind) + 4 unnamed kinds = 64 cases - each against a program containing all nine node kinds, a one-statement \
                    program and the empty program, describe() before and after; sampled part: seeded histories of 2..11 registrations / re-registrations \
                    interleaved with describe() of the all-kinds program and of generated programs, in a fresh simulated process (the engine used or not \
                    before the first registration); a sixth of the descriptors re-enter the engine (parse_expression + describe from inside the descriptor); in a \
